@@ -101,7 +101,8 @@ def build_zone(ex, st, N, T, pfx="z", hints=True):
     z.tys = ex.new_obj(st, T * 48, "transition_types_[]")
     z.abbr = ex.new_obj(st, 264, "abbreviations_ buffer")
     W = lambda off, n, v: ex.store_raw(st, Ptr(z.obj.obj, off), n, v)
-    W(0, 8, symex.NULL)
+    vt = ex.global_ptr(st, "_ZTVN4cctz12TimeZoneInfoE")      # the real vtable (TimeLocal calls MakeTime virtually)
+    W(0, 8, Ptr(vt.obj, 16))
     W(8, 8, Ptr(z.trs.obj, 0)); W(16, 8, Ptr(z.trs.obj, N * 48)); W(24, 8, Ptr(z.trs.obj, N * 48))
     W(32, 8, Ptr(z.tys.obj, 0)); W(40, 8, Ptr(z.tys.obj, T * 48)); W(48, 8, Ptr(z.tys.obj, T * 48))
     z.default = ex.input(pfx + "_default", 8, 0, T - 1) if T > 1 else 0
